@@ -826,7 +826,7 @@ package trzsz
 //@   ghost suffix map[int]int
 //@   requires suffixOf(f.files, suffix) && arWF(f)
 //@   requires ref(f.files) != ref(p) || len(p) == 0
-//@   assigns f.src, f.idx, f.buf, f.file, f.left, elems(p), elemsof("byte")
+//@   assigns f.src, f.idx, f.buf, f.file, f.left, elems(p), elemsof("byte"), fpos
 //@   ensures arWF(f)
 //@   ensures 0 <= r0 && r0 <= len(p)
 //@   ensures r1 == nil ==> arRem(f, suffix) == old(arRem(f, suffix)) - r0
